@@ -1878,7 +1878,7 @@ class Group(Element):
             # If it doesn't, it sets the reference to None to force the initializer to search again for the
             # segment reference. # This is done to avoid situation like m.zip = 'PAP|||asb|' which results in
             # this call to parse childparse_child(self, 'PAP|||asb|', 'zip', ('sequence', ()))
-            if text[:3] != child_name:
+            if text[:3].upper() != child_name:
                 reference = None
             kwargs = {'encoding_chars': self.encoding_chars, 'reference': reference}
             return Element.parse_child(self, text, **kwargs)
